@@ -148,7 +148,7 @@ def fixture(name):
     return {h["path"]: h for h in d["hir"]}
 
 
-def prune_cache(keep, max_trees=6):
+def prune_cache(keep, max_trees=12):
     base = os.path.join(CACHE, "facts")
     try:
         ents = [(os.path.getmtime(os.path.join(base, e)), e) for e in os.listdir(base) if e != keep]
